@@ -529,6 +529,9 @@ def _judge_c_cse(model, cm, mem):
                         ("tuple", tuple), ("dict", dict)):
             if what.endswith(" " + nm_):
                 return isinstance(a[0], ty)
+        _r = __import__("pv.absint", fromlist=["x"]).default_isinstance(a[0], a[1])
+        if _r is not None:
+            return _r
         raise AnalysisError(f"isinstance(..., {a[1]!r})")
 
     class St:
@@ -673,7 +676,13 @@ def _cse_bookkeeping(ctx, model):
     mem = effective_member(model, cm, "map_common_subexpression")
     if mem is None or mem.kind != "func" or mem.owner is not cm:
         raise AnalysisError("CCodeMapper.map_common_subexpression not found")
-    wit = _judge_c_cse(model, cm, mem)
+    try:
+        wit = _judge_c_cse(model, cm, mem)
+    except AnalysisError as e:
+        ctx.extra["judge_unavailable:c-cse"] = str(e)
+        _cse_handler_structural(ctx, model, cm, mem, loc)
+        _cse_state_rules(ctx, model, cm, mem, loc)
+        return
     ctx.ob("P0/c-cse/history-semantics", not wit, where_(mem),
            "map_common_subexpression interpreted on five call histories "
            "(repeated prefixes, no prefix, names in use, nested wrappers): one "
